@@ -77,7 +77,8 @@ class _Ctx:
 
 class CFG:
     def __init__(self, scope: Scope, program: Program, raise_model: 'RaiseModel', inline_methods: bool = False,
-                 inline_nested: bool = True):
+                 inline_nested: bool = True, no_inline: Tuple[str, ...] = ()):
+        self.no_inline = tuple(no_inline)       # qualnames of helpers that stay opaque call nodes
         self.inline_methods = inline_methods
         self.inline_nested = inline_nested
         self.scope = scope
@@ -96,6 +97,7 @@ class CFG:
         self._inlining: List[str] = []
         self.cur_scope: Scope = scope          # scope whose body is currently being built (changes while inlining)
         self.callee_cache: Dict[int, dict] = {}
+        self._stack_sites: Dict[int, str] = {}
         self.inline_values: Dict[int, Tuple[ast.expr, Dict[str, ast.expr]]] = {}
         fn = scope.node
         self.entry = self._raw_node('entry', fn, getattr(fn, 'lineno', 0))
@@ -322,6 +324,13 @@ class CFG:
                 sub = None
                 if isinstance(value, (ast.Tuple, ast.List)) and len(value.elts) == len(t.elts):
                     sub = value.elts[i]
+                elif value is not None and not isinstance(value, (ast.Tuple, ast.List)) \
+                        and not any(isinstance(x, ast.Starred) for x in t.elts):
+                    # element i of the unpacked value: lets value resolution see through `a, b = pair`
+                    sub = ast.Subscript(value=value, slice=ast.Constant(value=i), ctx=ast.Load())
+                    ast.copy_location(sub, e)
+                    ast.copy_location(sub.slice, e)
+                    sub._synth_unpack = True  # type: ignore[attr-defined]
                 if isinstance(e, ast.Starred):
                     e = e.value
                 self._store(e, sub, stmt)
@@ -460,6 +469,27 @@ class CFG:
             self._build_body(s.body)
             return
         item = items[0]
+        ce = item.context_expr
+        if isinstance(ce, ast.Call) and self.res.path(ce.func) == 'contextlib.suppress' and item.optional_vars is None \
+                and not is_async and ce.args and not ce.keywords and not any(isinstance(a, ast.Starred) for a in ce.args):
+            # `with suppress(E, ...): body`  ==  `try: body  except (E, ...): pass`
+            rest = items[1:]
+            body = s.body
+            if rest:
+                inner = ast.With(items=rest, body=s.body)
+                ast.copy_location(inner, s)
+                inner._parent = s  # type: ignore[attr-defined]
+                body = [inner]
+            typ = ce.args[0] if len(ce.args) == 1 else ast.copy_location(ast.Tuple(elts=list(ce.args), ctx=ast.Load()), ce)
+            ps = ast.copy_location(ast.Pass(), ce)
+            h = ast.copy_location(ast.ExceptHandler(type=typ, name=None, body=[ps]), ce)
+            t = ast.copy_location(ast.Try(body=body, handlers=[h], orelse=[], finalbody=[]), s)
+            t._parent = getattr(s, '_parent', None)  # type: ignore[attr-defined]
+            h._parent = t  # type: ignore[attr-defined]
+            ps._parent = h  # type: ignore[attr-defined]
+            t._synth_suppress = True  # type: ignore[attr-defined]
+            self._s_Try(t)
+            return
         self._expr(item.context_expr)
         self._node('with_enter', item.context_expr, s.lineno, item=item, is_async=is_async, stmt=s)
         c = _Ctx('with', node=item)
@@ -468,6 +498,26 @@ class CFG:
         self._withs = oldw + (item,)
         if item.optional_vars is not None:
             self._store(item.optional_vars, None, s)
+        # `with ExitStack() as st: ... st.callback(f, *args) ...`: the callbacks registered on the way run when
+        # the block is left (in reverse order).  Modelled with one synthetic boolean local per registration
+        # site - false at entry, true once the site was executed - and a guarded call in every exit clone.
+        stack_sites: List[Tuple[ast.Call, str]] = []
+        if isinstance(ce, ast.Call) and self.res.path(ce.func) == 'contextlib.ExitStack' and not is_async \
+                and isinstance(item.optional_vars, ast.Name) and not ce.args and not ce.keywords:
+            S = item.optional_vars.id
+            uses = [x for st_ in s.body for x in ast.walk(st_) if isinstance(x, ast.Name) and x.id == S]
+            calls = [x for st_ in s.body for x in ast.walk(st_) if isinstance(x, ast.Call) and isinstance(x.func, ast.Attribute)
+                     and isinstance(x.func.value, ast.Name) and x.func.value.id == S and x.func.attr == 'callback' and x.args
+                     and not any(isinstance(a, ast.Starred) for a in x.args) and not any(k.arg is None for k in x.keywords)]
+            in_loop = any(isinstance(x, (ast.For, ast.While, ast.AsyncFor)) for st_ in s.body for x in ast.walk(st_))
+            if calls and len(calls) == len(uses) and not in_loop:
+                for k, x in enumerate(calls):
+                    flag = f'__exitstack_{s.lineno}_{k}'
+                    stack_sites.append((x, flag))
+                    fc = ast.copy_location(ast.Constant(value=False), x)
+                    self._node('store_name', ast.copy_location(ast.Name(id=flag, ctx=ast.Store()), x), s.lineno,
+                               name=flag, value=fc, stmt=s, synthetic=True)
+                    self._stack_sites[id(x)] = flag
         self._with_items(items[1:], s, is_async)
         # exits are created while still "inside" (lock still held at the exit node)
         normal = self.cur
@@ -481,6 +531,16 @@ class CFG:
             n = self._node('with_exit', item.context_expr, getattr(s, 'end_lineno', s.lineno),
                            item=item, is_async=is_async, how=how, stmt=s)
             self._withs = oldw
+            for x, flag in reversed(stack_sites):
+                test = ast.copy_location(ast.Name(id=flag, ctx=ast.Load()), x)
+                b = self._node('branch', test, test=test, synthetic=True)
+                self.cur = [(b, 'true')]
+                call = ast.Call(func=x.args[0], args=list(x.args[1:]), keywords=list(x.keywords))
+                ast.copy_location(call, x)
+                call._parent = s  # type: ignore[attr-defined]
+                call._exitstack_callback = True  # type: ignore[attr-defined]
+                self._e_Call(call)
+                self.cur = self.cur + [(b, 'false')]
             return n
 
         after: Frontier = []
@@ -662,6 +722,11 @@ class CFG:
                 self._node('call', synth, synthetic_for=e)
                 return
         self._node('call', e)
+        flag = self._stack_sites.get(id(e))
+        if flag is not None:
+            tc = ast.copy_location(ast.Constant(value=True), e)
+            self._node('store_name', ast.copy_location(ast.Name(id=flag, ctx=ast.Store()), e), e.lineno,
+                       name=flag, value=tc, stmt=e, synthetic=True)
 
     def _lambda_host(self, lam: ast.Lambda) -> Optional[Scope]:
         for a in ancestors(lam):
@@ -723,7 +788,7 @@ class CFG:
             if cls is None:
                 return None
             m = find_method(self.program, cls, f.attr)
-            if m is None or _is_abstract(m):
+            if m is None or _is_abstract(m) or m.qualname in self.no_inline:
                 return None
             for sub in subclasses(self.program, cls):
                 if sub.unit.scopes.get(f'{sub.qualname}.{f.attr}') is not None:
@@ -743,9 +808,16 @@ class CFG:
         if t.qualname in self._inlining or len(self._inlining) >= 4 or t is self.scope:
             return None
         a = t.node.args
-        if a.vararg or a.kwarg or a.posonlyargs:
+        if a.kwarg or a.posonlyargs:
             return None
         params = [x.arg for x in a.args][1 if skip_self else 0:]
+        if a.vararg:
+            # `def helper(self, *args)`: the extra positional arguments travel as a tuple
+            if e.keywords or a.kwonlyargs or len(e.args) < len(params):
+                return None
+            extra = ast.Tuple(elts=list(e.args[len(params):]), ctx=ast.Load())
+            ast.copy_location(extra, e)
+            return t, [(prm, arg) for prm, arg in zip(params, e.args)] + [(a.vararg.arg, extra)]
         defaults: Dict[str, ast.expr] = {}
         for prm, d in zip(reversed([x.arg for x in a.args]), reversed(a.defaults)):
             defaults[prm] = d
@@ -1346,12 +1418,12 @@ _cfg_cache: Dict[tuple, CFG] = {}
 
 
 def build(scope: Scope, program: Program, raise_model: Optional[RaiseModel] = None,
-          inline_methods: bool = False, inline_nested: bool = True) -> CFG:
+          inline_methods: bool = False, inline_nested: bool = True, no_inline: Tuple[str, ...] = ()) -> CFG:
     if raise_model is None:
         raise_model = default_model(program)
-    key = (id(raise_model), scope.unit.rel, scope.qualname, inline_methods, inline_nested)
+    key = (id(raise_model), scope.unit.rel, scope.qualname, inline_methods, inline_nested, tuple(no_inline))
     if key not in _cfg_cache:
-        _cfg_cache[key] = CFG(scope, program, raise_model, inline_methods, inline_nested)
+        _cfg_cache[key] = CFG(scope, program, raise_model, inline_methods, inline_nested, tuple(no_inline))
     return _cfg_cache[key]
 
 
